@@ -178,6 +178,8 @@ class SA_VQESolver(VQESolver):
 
         self.optimal_var_params = optimal_var_params
         self.optimal_energy = optimal_energy
+        # The optimizer's last evaluation is not necessarily the optimal one: state_energies must describe the optimal states
+        self.energy_estimation(self.optimal_var_params)
         self.ansatz.build_circuit(self.optimal_var_params)
         # A snapshot: the ansatz circuit itself is updated in place by every later energy evaluation
         self.optimal_circuit = self.ansatz.circuit.copy()
